@@ -2,5 +2,5 @@
 # usage: mutcheck.sh <prop> <patch.diff> [tier]  — applies a seeded change to /repo, runs the check, reverts.
 prop=$1; patch=$2; tier=${3:-quick}
 cd /repo && git apply "$patch" || { echo "PATCH DOES NOT APPLY"; exit 3; }
-cd /verif && bin/symgo check --prop $prop --tier $tier 2>&1 | grep -E "VIOLATION|fingerprint|NOT-DECIDED|MACHINERY|UNCONFIRMED|^harness" ; 
+cd /verif && timeout ${MUT_TIMEOUT:-900} bin/symgo check --prop $prop --tier $tier 2>&1 | grep -E "VIOLATION|fingerprint|NOT-DECIDED|MACHINERY|UNCONFIRMED|^harness" ; 
 cd /repo && git reset -q && git checkout -- . && git status --short | head -3
